@@ -162,6 +162,8 @@ where
         let seed = ctx.seed;
         let label = format!("{}:{}", ctx.prop, label);
         let deadline = ctx.deadline;
+        let only: Option<u64> = std::env::var("PV_ONLY").ok().and_then(|v| v.parse().ok());
+        let trace = std::env::var("PV_TRACE").is_ok();
         let h = std::thread::Builder::new()
             .stack_size(512 << 20)
             .spawn(move || {
@@ -176,10 +178,19 @@ where
                         rep.count("cases_not_run_deadline");
                         continue;
                     }
+                    if let Some(only) = only {
+                        if i != only {
+                            continue;
+                        }
+                    }
                     cur.1.store(t0.elapsed().as_millis() as u64, Ordering::SeqCst);
                     cur.0.store(i + 1, Ordering::SeqCst);
                     let mut rng = Rng::derive(seed, &label, i, 0);
+                    let tc = Instant::now();
                     let r = crate::run::guarded(|| f(&mut rng, i, &mut rep));
+                    if trace && tc.elapsed().as_millis() > 500 {
+                        eprintln!("TRACE slow case {i}: {} ms", tc.elapsed().as_millis());
+                    }
                     if let Err(p) = r {
                         // a panic that escaped the check's own guards is a harness fault unless
                         // the check catches it itself; record as inconclusive with the message
@@ -214,6 +225,9 @@ where
             if c != 0 && now_ms.saturating_sub(st) > case_limit.as_millis() as u64 {
                 if !stuck.contains(&(c - 1)) {
                     stuck.push(c - 1);
+                    if std::env::var("PV_TRACE").is_ok() {
+                        eprintln!("TRACE stuck case {}", c - 1);
+                    }
                 }
                 // consider this shard lost
                 continue;
